@@ -18,6 +18,18 @@ CHECKS = {
                 text="All instantiations of each rule/folding site with variables, repeated variables and boundary constants are enumerated (not sampled) and evaluated on the cross product of 15 boundary words per free operand plus random states; catches any rule that is wrong on the grid or on sampled states.",
                 note="trusts vf/evm.py; the size-mode clause is decided on emitted code by C08",
                 ref="DESIGN.md section 3 C03"),
+    "C04": dict(level="exploration", technique="property-based testing of greedy_from_json on front-end specifications and metamorphic variants (rename / permute / extra words); oracle = independent abstract sequence checker + reference interpreter",
+                text="Each id sequence greedy reports as successful is symbolically executed by an independent checker (underflow, DUP/SWAP depth, stores once, every dependence pair, operands as named, exact final stack); finds any non-realizing result among the generated specifications.",
+                note="trusts vf/seqcheck.py; commutativity is taken from the specification's own flag; error=1 answers are allowed by the property",
+                ref="DESIGN.md section 3 C04"),
+    "C14": dict(level="exploration", technique="property-based testing of the split/rebuild functions; oracles = tiling/round-trip identities and an independently constructed expected block for single-segment replacement",
+                text="Generated blocks with dense split layouts under the three policies: joined sub-blocks must equal the optimizable sequence, specification keys must name reported sub-blocks with matching height change, rebuild with nothing replaced must be the identity and replacing one sub-block must change exactly that segment.",
+                note="own arity table for heights; the reported partition is taken as given once it tiles the block",
+                ref="DESIGN.md section 3 C14"),
+    "C16": dict(level="exploration", technique="property-based testing with witness search: original segment, greedy result and bounded-exhaustive enumeration (E5) of realizing sequences; violations only with an exhaustive-search or counting proof",
+                text="For every generated specification the published bounds are confronted with validated realizing sequences; infeasibility is reported only when an exhaustive search inside the bounds finds nothing while a sequence exists outside, or by a counting argument; min_length is compared with every validated witness.",
+                note="trusts vf/seqcheck.py and vf/brute.py; larger specifications without witness are counted as inconclusive",
+                ref="DESIGN.md section 3 C16"),
 }
 
 NOT_YET = {}
